@@ -78,7 +78,10 @@ def gen(proto_text):
 
     def emit(name, blk):
         f, o, e, sub = blk
-        out.append(f"#[derive(Clone)]\npub struct {name} {{")
+        # prost derives Copy as well for messages whose fields are all plain scalars (no string/bytes/message/repeated, no oneof)
+        COPY_SCALARS = {"u32", "u64", "i32", "i64", "bool", "f32", "f64"}
+        all_copy = (not o) and all(label.strip() not in ("repeated",) and rust_type(label, ty, enum_names).replace("Option<", "").rstrip(">") in COPY_SCALARS for label, ty, fn in f)
+        out.append(f"#[derive(Clone{', Copy' if all_copy else ''})]\npub struct {name} {{")
         for label, ty, fn in f:
             out.append(f"    pub {fn}: {rust_type(label, ty, enum_names)},")
         for on, _ in o:
